@@ -25,7 +25,15 @@ impl PanicInfo {
     /// file:line without column, with the path made relative to the repository.
     pub fn short_loc(&self) -> String {
         let l = self.loc.clone();
-        let l = l.strip_prefix("/repo/").unwrap_or(&l).to_string();
+        // wherever the repository is checked out (/repo, or a scratch copy under another path), a location
+        // inside it reads src/...; locations in std or registry crates keep their full path
+        let l = if l.starts_with("/rustc/") || l.contains("/.cargo/") || l.contains("/rustlib/") {
+            l
+        } else if let Some(k) = l.rfind("/src/") {
+            l[k + 1..].to_string()
+        } else {
+            l
+        };
         let mut parts: Vec<&str> = l.split(':').collect();
         if parts.len() >= 3 {
             parts.pop();
